@@ -12,6 +12,7 @@ mod c10;
 mod c11;
 mod c13;
 mod c14;
+mod c15;
 mod c16;
 
 use simcore::report::{install_quiet_panic_hook, Tier};
@@ -46,6 +47,7 @@ fn main() {
             "C11" => c11::replay(r),
             "C13" => c13::replay(r),
             "C14" => c14::replay(r),
+            "C15" => c15::replay(r),
             "C07" => c07::replay(r),
             "C08" => c08::replay(r),
             "C16" => c16::replay(r),
@@ -67,6 +69,7 @@ fn main() {
         "C11" => c11::run(tier),
         "C13" => c13::run(tier),
         "C14" => c14::run(tier),
+        "C15" => c15::run(tier),
         "C07" => c07::run(tier),
         "C08" => c08::run(tier),
         "C16" => c16::run(tier),
